@@ -16,6 +16,7 @@ import Nsl.Model.Link
 import Nsl.Model.Wasm
 import Nsl.Model.WasmEval
 import Nsl.Model.WasmRange
+import Nsl.Model.IRType
 import Nsl.Model.ScalarCore
 import Nsl.Model.StorageCore
 import Nsl.Gen.Grammar
@@ -255,6 +256,27 @@ def handle (st : DState) (line : String) : DState × String :=
           "no" ++ (if Opt.blockLocal [] f.code then "" else " not-block-local") ++ (if Opt.defsDistinct f.code then "" else " defs-not-distinct") ++
             (if Opt.labelsDistinct f.code then "" else " labels-not-distinct") ++ (if Opt.targetsOK f.code then "" else " target-missing") ++
             (if Opt.callsOK f p then "" else " call-unresolved")))
+      | none => "error")
+  | "irtycheck" :: mode =>
+    -- the IR type checker (C05 at the IR level): per function `ok` or the first instruction whose rule fails
+    (st, match st.ir with
+      | some p =>
+        let strict := mode == ["strict"]
+        " | ".intercalate (p.funcs.map fun f => f.name ++ ": " ++
+          (if IRType.checkFn strict p f then "ok" else
+            if f.code.isEmpty then "empty-body-of-non-void-function" else
+            match IRType.firstBad (IRType.mkCtx strict p f (IRType.inferD f.code)) {} f.code 0 with
+            | some (pc, ins, false) => "pc=" ++ toString pc ++ " " ++ (Codec.encInstr ins).toStr
+            | some (pc, ins, true) => "pc=" ++ toString pc ++ " runs-off-the-end-after " ++ (Codec.encInstr ins).toStr
+            | none => "?"))
+      | none => "error")
+  | ["irtylayers"] =>
+    (st, match st.ir with
+      | some p =>
+        let yn := fun (b : Bool) => if b then "yes" else "no"
+        "full=" ++ yn (IRType.irTypeCheck p) ++ " strict=" ++ yn (IRType.irTypeCheckStrict p) ++
+          " flat=" ++ yn (IRType.irTypeCheckFlat p) ++ " scalar=" ++ yn (IRType.irTypeCheckScalar p) ++
+          " inflat=" ++ yn (IRType.layerProg IRType.flatTy true p) ++ " inscalar=" ++ yn (IRType.layerProg IRType.scalarTy false p)
       | none => "error")
   | ["wf"] => (st, match st.ir with
       | some p => " | ".intercalate (p.funcs.map fun f => f.name ++ ": " ++ WF.wfReport f p)
